@@ -138,6 +138,7 @@ pub fn builder_text(bb: &BoardBuilder) -> String {
 }
 
 pub struct Cfg {
+    pub gen_play_all: bool,
     pub gen_play_pawns: bool,
     pub starts_only: bool,
     pub obs: BTreeSet<String>,
@@ -163,6 +164,20 @@ impl<'a> Driver<'a> {
         let mut r = self.rng.below(100);
         if self.cfg.starts_only {
             r = 37 + r % 23;
+        } else if self.rng.chance(1, 10) {
+            // single-defect states below an accepted board (each violates one clause of the soundness statement, so the
+            // unchanged library refuses them all); a weakened validator lets some through, and every observation made on
+            // such a board is then judged against the rules
+            if let Some(b) = crate::cand::accepted_board(&mut self.rng, self.roots) {
+                let base = BoardBuilder::from_board(&b);
+                let mut v = vec![];
+                crate::cand::targeted(&mut self.rng, &base, &mut v);
+                for (name, bb) in v {
+                    if let Some(Ok(x)) = guard(|| bb.build()) {
+                        return Some((format!("builder-{}", name), builder_text(&bb), x));
+                    }
+                }
+            }
         }
         if r < 22 && !self.roots.corpus.is_empty() {
             let t = self.rng.pick(&self.roots.corpus).clone();
@@ -183,7 +198,13 @@ impl<'a> Driver<'a> {
             Some(("dfrc".into(), format!("{},{}", w, k), b))
         } else {
             for _ in 0..200 {
-                let bb = random_builder(&mut self.rng);
+                let mut bb = random_builder(&mut self.rng);
+                // sometimes one more random change (a right on any file, the king off its back rank, an ep square anywhere,
+                // a piece added / moved / recoloured): a validator that lets an unsound state through is then seen by
+                // every observation made on the resulting board
+                if self.rng.chance(1, 3) {
+                    crate::cand::mutate(&mut self.rng, &mut bb);
+                }
                 if let Some(Ok(b)) = guard(|| bb.build()) {
                     return Some(("builder".into(), builder_text(&bb), b));
                 }
@@ -926,7 +947,7 @@ impl<'a> Driver<'a> {
         let king = b.king(b.side_to_move());
         let mut api = 0;
         for m in legal_moves(&b) {
-            let wanted = m.from == king || (self.cfg.gen_play_pawns && b.piece_on(m.from) == Some(Piece::Pawn));
+            let wanted = self.cfg.gen_play_all || m.from == king || (self.cfg.gen_play_pawns && b.piece_on(m.from) == Some(Piece::Pawn));
             if !wanted {
                 continue;
             }
@@ -1013,7 +1034,7 @@ pub fn run(args: &Args) {
     let roots = Roots::load();
     let mut sh = Shards::new(out, shards);
     {
-        let cfg = Cfg { gen_play_pawns: args.get("gen-play") == Some("pawnking"), starts_only: args.get("root-mix") == Some("starts"), obs: args.list("obs").into_iter().collect(), plies: args.num("plies", 24), heavy_every: args.num("heavy-every", 1) };
+        let cfg = Cfg { gen_play_all: args.get("gen-play") == Some("all"), gen_play_pawns: args.get("gen-play") == Some("pawnking"), starts_only: args.get("root-mix") == Some("starts"), obs: args.list("obs").into_iter().collect(), plies: args.num("plies", 24), heavy_every: args.num("heavy-every", 1) };
         let mut d = Driver { out: &mut sh, rng: Rng::new(seed), cfg, roots: &roots, all_moves: all_move_values(), states: 0 };
         // subtrees below curated roots: every (position, move) pair near the roots
         let sub = args.num("subtrees", 0);
